@@ -29,6 +29,9 @@ type FuzzCase struct {
 	Limit    int64  `json:"limit,omitempty"`
 	// ReadMsg: drain with ReadMessage instead of NextReader+Read.
 	ReadMsg bool   `json:"readmsg,omitempty"`
+	// PreBuf (server, entry frames): this many input bytes arrived together
+	// with the handshake request and sit in the hijacked bufio.Reader.
+	PreBuf int `json:"prebuf,omitempty"`
 	Data    []byte `json:"data"`
 	Chunks  []int  `json:"chunks,omitempty"`
 	// Headers for entry "headers": name -> values (canonical names).
@@ -82,14 +85,35 @@ func checkC07(c FuzzCase, o *Obs) error {
 func fuzzFrames(c FuzzCase) (bool, error) {
 	tr := xport.NewScriptConn(nil, nil)
 	tr.NoLog = true
-	conn, err := NewConn(ConnCfg{Server: c.Server, Compress: c.Compress, ReadBuf: c.ReadBuf}, tr, nil)
-	if err != nil {
-		return false, err
+	var conn *websocket.Conn
+	var err error
+	if c.Server && c.PreBuf > 0 && len(c.Data) > 0 {
+		k := c.PreBuf
+		if k > len(c.Data) {
+			k = len(c.Data)
+		}
+		if k > 4096 {
+			k = 4096
+		}
+		tr.SetInput(c.Data, append([]int{k}, c.Chunks...))
+		br := bufio.NewReaderSize(tr, 4096)
+		br.Peek(1)
+		w := &fakeRW{conn: tr, brw: bufio.NewReadWriter(br, bufio.NewWriterSize(tr, 4096))}
+		u := websocket.Upgrader{ReadBufferSize: c.ReadBuf, EnableCompression: c.Compress, CheckOrigin: allowOrigin}
+		conn, err = u.Upgrade(w, upgradeRequest(c.Compress), nil)
+		if err != nil {
+			return false, fmt.Errorf("harness: Upgrade failed: %v", err)
+		}
+	} else {
+		conn, err = NewConn(ConnCfg{Server: c.Server, Compress: c.Compress, ReadBuf: c.ReadBuf}, tr, nil)
+		if err != nil {
+			return false, err
+		}
+		tr.SetInput(c.Data, c.Chunks)
 	}
 	if c.Limit > 0 {
 		conn.SetReadLimit(c.Limit)
 	}
-	tr.SetInput(c.Data, c.Chunks)
 	accepted := 0
 	maxIter := len(c.Data)/2 + 8
 	for i := 0; ; i++ {
@@ -365,12 +389,22 @@ var headerValuePool = []string{
 	"permessage-deflate", "permessage-deflate; client_max_window_bits", "permessage-deflate; a=\"b\\", "x; y=\"", "\"", "\\", "a=\"\\\"\"",
 	"foo; bar=\"baz\\", ",", ";", ",,;;==", "\x00", "http://example.com", "http://[::1", "://", "null", "é", strings.Repeat(",", 200), strings.Repeat("a;", 100),
 	"permessage-deflate; server_no_context_takeover; client_no_context_takeover", "x=\"" + strings.Repeat("\\", 31) + "\"",
+	// key-shaped values around the 24-character / 16-byte boundary
+	"AAAAAAAAAAAAAAAAAAAAAAAA", "AAAAAAAAAAAAAAAAAAAAAAA=", "AAAAAAAAAAAAAAAAAAAAAA", "AAAAAAAAAAAAAAAAAAAAAA=", "AAAAAAAAAAAAAAAAAAAAAAAAAA==", "AAAAAAAAAAAAAAAAAAAAAAAAAAA=",
+	"AAAAAAAAAAAAAAAAAAAAAAAAAAAAAAAA", "====", "AAAA====", "AAAAAAAAAAAAAAAAAAAAAA==\n", "/+/+/+/+/+/+/+/+/+/+/+/+", "AAAAAAAAAAAAAAAAAAAA", "AAAAAAAAAAAAAAAAAAAAAAAAAAAAAAAAAAAAAAAAAAA=",
 }
 
 var fuzzHeaderNames = []string{"Connection", "Upgrade", "Sec-Websocket-Version", "Sec-Websocket-Key", "Sec-Websocket-Protocol", "Sec-Websocket-Extensions", "Origin"}
 
 func genHeaderValue(t *rapid.T) string {
-	switch rapid.IntRange(0, 3).Draw(t, "hv_kind") {
+	switch rapid.IntRange(0, 4).Draw(t, "hv_kind") {
+	case 4: // base64-alphabet strings of 20..28 characters with 0-2 padding characters
+		n := rapid.IntRange(20, 28).Draw(t, "hv_b64len")
+		b := []byte(rapid.StringOfN(rapid.RuneFrom([]rune("ABCDabcd0189+/")), n, n, -1).Draw(t, "hv_b64"))
+		for i := 0; i < rapid.IntRange(0, 2).Draw(t, "hv_pad") && i < len(b); i++ {
+			b[len(b)-1-i] = '='
+		}
+		return string(b)
 	case 0:
 		return rapid.SampledFrom(headerValuePool).Draw(t, "hv_pool")
 	case 1:
@@ -414,6 +448,10 @@ func genFuzzCase(t *rapid.T) FuzzCase {
 			c.Data = mutateBytes(t, m.Wire)
 		}
 		c.Chunks = genChunks(t, "chunks", len(c.Data))
+		if c.Server && rapid.IntRange(0, 2).Draw(t, "glued") == 0 {
+			c.PreBuf = rapid.OneOf(rapid.IntRange(1, 20), rapid.IntRange(1, 600), rapid.SampledFrom([]int{125, 126, 127, 200, 201, 4096})).Draw(t, "prebuf")
+			c.ReadBuf = rapid.SampledFrom([]int{0, 1, 125, 126, 200, 512}).Draw(t, "rbuf2")
+		}
 		if c.Limit > 0 && rapid.Bool().Draw(t, "nolimit") {
 			c.Limit = 0
 		}
